@@ -88,6 +88,50 @@ theorem interval_GetPointList_chk_eq (list : List interval_Interval) (listId : I
     simp only []
     rw [GoSem.chk64_eq (x := 2 * k + 1) (by omega) (by omega)]
 
+/-! ### `Humanize`: the counter of closed ends is at most the length, the new capacity at most twice the length -/
+
+def humCntChk : Int → Int → interval_Interval → Option (GoSem.Flow Int Empty) := fun closedEndCount _i interval => do
+      if ((interval).ClosedEnd && (decide ((interval).End > (interval).Start))) then
+        let closedEndCount ← (GoSem.chk64 (closedEndCount + 1))
+        pure (GoSem.Flow.next closedEndCount)
+      else
+        pure (GoSem.Flow.next closedEndCount)
+def humCnt : Int → Int → interval_Interval → Option (GoSem.Flow Int Empty) := fun closedEndCount _i interval => do
+      if ((interval).ClosedEnd && (decide ((interval).End > (interval).Start))) then
+        let closedEndCount := (closedEndCount + 1)
+        pure (GoSem.Flow.next closedEndCount)
+      else
+        pure (GoSem.Flow.next closedEndCount)
+
+theorem humCnt_loop (l : List interval_Interval) : ∀ (i c : Int), 0 ≤ c → c + l.length ≤ 4611686018427387903 →
+    ∃ c', c ≤ c' ∧ c' ≤ c + l.length ∧ GoSem.forFold humCntChk l i c = some (.next c') ∧
+      GoSem.forFold humCnt l i c = some (.next c') := by
+  induction l with
+  | nil => intro i c _ _; exact ⟨c, by omega, by simp, rfl, rfl⟩
+  | cons x xs ih =>
+    intro i c h0 h1
+    simp only [List.length_cons] at h1
+    simp only [GoSem.forFold, humCntChk, humCnt]
+    by_cases hx : (x.ClosedEnd && decide (x.End > x.Start)) = true
+    · simp only [hx, if_true, bind, Option.bind, pure]
+      rw [GoSem.chk64_eq (x := c + 1) (by omega) (by omega)]
+      obtain ⟨c', a, b, e1, e2⟩ := ih (i + 1) (c + 1) (by omega) (by omega)
+      exact ⟨c', by omega, by simp only [List.length_cons]; omega, e1, e2⟩
+    · simp only [hx, pure]
+      obtain ⟨c', a, b, e1, e2⟩ := ih (i + 1) c (by omega) (by omega)
+      exact ⟨c', by omega, by simp only [List.length_cons]; omega, e1, e2⟩
+
+theorem interval_Humanize_chk_eq (list : List interval_Interval) (hl : (list.length : Int) ≤ 2305843009213693951) :
+    interval_Humanize_chk list = interval_Humanize list := by
+  obtain ⟨c', a, b, e1, e2⟩ := humCnt_loop list 0 0 (by omega) (by omega)
+  unfold interval_Humanize_chk interval_Humanize
+  show (GoSem.forFold humCntChk list 0 0 >>= _) = (GoSem.forFold humCnt list 0 0 >>= _)
+  rw [e1, e2]
+  simp only [bind, Option.bind]
+  by_cases hc : c' = 0
+  · simp only [hc, decide_true, if_true]
+  · simp only [hc, decide_false]
+    rw [GoSem.chk64_eq (x := (list.length : Int) + c') (by omega) (by omega)]
 /-- non-vacuity: a checked copy with arithmetic refuses where the arithmetic would wrap — it is not the
     unchecked copy renamed -/
 example : lib_GetTotalSeconds_chk ⟨3000000000000000000, 0, 0⟩ = none := by decide
